@@ -110,6 +110,13 @@ def check(rec):
         own_signal = b_meta is not None and b_meta[0] == "CancelScope" and \
             b_meta[1] == "scope:" + label
         priv_children = [m for m in metas if _privileged(m)]
+        if b_meta is not None and b_meta in metas and not _privileged(b_meta):
+            # the body was suspended on its own failing child (`await task`): that failure aborts
+            # the body, it must not be handed to it as a result
+            bad("body-got-child-failure", "scope %s: the body left with %r, the failure of its "
+                "own child, instead of being aborted by it (expected Concurrent)"
+                % (label, b_meta))
+            continue
         accept = None
         if _privileged(b_meta):
             accept = [b_meta] + priv_children[:1]
